@@ -364,8 +364,20 @@ fn run_global(a: &Args) -> Report {
     rt::quiet_panics();
     let mut rep = Report::new("C02", &a.leg, a.seed);
     let mut r = Rng::new(a.shard_seed());
-    let ninst = 2 + r.usize(4);
+    // every other process runs the "probe" schedule: a single installer is held right after the cell was published
+    // (before set_global_recorder has returned) while a thread without a local recorder emits, first with a local
+    // recorder alive on some other thread and then after that one was dropped
+    let probe = a.shard % 2 == 0;
+    let ninst = if probe { 1 } else { 2 + r.usize(4) };
     let nemit = 2 + r.usize(8);
+    let ctx = Ctx::new(
+        if probe {
+            Policy::Gate(vec![Rule::new(0, "cell.set.after_publish", 1, 1, "@done", 1), Rule::new(1, "@start", 1, 0, "cell.set.after_publish", 1)])
+        } else {
+            Policy::Off
+        },
+        false,
+    );
     let drops: Arc<Vec<AtomicUsize>> = Arc::new((0..ninst).map(|_| AtomicUsize::new(0)).collect());
     let calls = Arc::new(AtomicU64::new(0));
     let stamp = Arc::new(AtomicU64::new(1));
@@ -375,7 +387,8 @@ fn run_global(a: &Args) -> Report {
     for i in 0..ninst {
         let (drops, calls, stamp, go) = (drops.clone(), calls.clone(), stamp.clone(), go.clone());
         let delay = r.below((per as u64).min(4000));
-        hs.push(std::thread::spawn(move || {
+        let spawn_installer = |f: Box<dyn FnOnce() -> Vec<Ev> + Send>| if probe { rt::spawn_role(&ctx, 0, 1, f) } else { std::thread::spawn(f) };
+        hs.push(spawn_installer(Box::new(move || {
             while !go.load(Ordering::SeqCst) {
                 std::hint::spin_loop();
             }
@@ -396,6 +409,46 @@ fn run_global(a: &Args) -> Report {
                     vec![Ev::Set { id: i as u64, ok: false, call, ret, returned_intact: intact }]
                 }
             }
+        })));
+    }
+    if probe {
+        let stamp = stamp.clone();
+        hs.push(rt::spawn_role(&ctx, 1, 2, move || {
+            static QUIET: metrics::NoopRecorder = metrics::NoopRecorder;
+            let (cmd_tx, cmd_rx) = std::sync::mpsc::channel::<bool>();
+            let (ack_tx, ack_rx) = std::sync::mpsc::channel::<()>();
+            // another thread that owns a thread-local recorder for a while
+            let other = std::thread::spawn(move || {
+                let mut guard = None;
+                while let Ok(install) = cmd_rx.recv() {
+                    if install {
+                        guard = Some(metrics::set_default_local_recorder(&QUIET));
+                    } else {
+                        guard = None;
+                    }
+                    let _ = ack_tx.send(());
+                }
+                drop(guard);
+            });
+            let mut out = Vec::new();
+            let mut emit = |out: &mut Vec<Ev>| {
+                SEEN.with(|s| s.set((u64::MAX, true)));
+                let call = stamp.fetch_add(1, Ordering::SeqCst);
+                let _ = metrics::counter!("c02_probe");
+                let ret = stamp.fetch_add(1, Ordering::SeqCst);
+                let (id, whole) = SEEN.with(|s| s.get());
+                out.push(Ev::Load { seen: if id == u64::MAX { None } else { Some(id) }, whole, call, ret });
+            };
+            let _ = cmd_tx.send(true);
+            let _ = ack_rx.recv_timeout(std::time::Duration::from_secs(5));
+            emit(&mut out);
+            let _ = cmd_tx.send(false);
+            let _ = ack_rx.recv_timeout(std::time::Duration::from_secs(5));
+            emit(&mut out);
+            emit(&mut out);
+            drop(cmd_tx);
+            let _ = other.join();
+            out
         }));
     }
     let exit_evs: Arc<std::sync::Mutex<Vec<Ev>>> = Arc::new(std::sync::Mutex::new(Vec::new()));
@@ -429,16 +482,42 @@ fn run_global(a: &Args) -> Report {
             out
         }));
     }
+    // an unrelated thread that keeps installing and dropping a thread-local recorder of its own while all this happens:
+    // what other threads do with local recorders must not influence where global emissions go
+    let flap_stop = Arc::new(AtomicBool::new(false));
+    let flapper = {
+        let (flap_stop, go) = (flap_stop.clone(), go.clone());
+        std::thread::spawn(move || {
+            let local = metrics::NoopRecorder;
+            while !go.load(Ordering::SeqCst) {
+                std::hint::spin_loop();
+            }
+            let mut k = 0u64;
+            while !flap_stop.load(Ordering::SeqCst) {
+                let g = metrics::set_default_local_recorder(&local);
+                if k % 3 == 0 {
+                    std::thread::yield_now();
+                }
+                drop(g);
+                k += 1;
+            }
+        })
+    };
     go.store(true, Ordering::SeqCst);
     let mut evs = Vec::new();
     for h in hs {
         evs.extend(h.join().unwrap());
     }
+    flap_stop.store(true, Ordering::SeqCst);
+    let _ = flapper.join();
     // emissions made by thread-local destructors while the emitter threads were exiting
     let at_exit: Vec<Ev> = std::mem::take(&mut *exit_evs.lock().unwrap());
     rep.count("emissions_from_thread_exit_destructors", at_exit.len() as u64);
     evs.extend(at_exit);
-    let desc = jo! {"installers" => ninst, "emitters" => nemit, "emissions_each" => per, "real_global_cell" => true};
+    if probe {
+        rep.count("probe:installer-held-after-publication", (ctx.unsat.load(Ordering::SeqCst) == 0 && ctx.expired.load(Ordering::SeqCst) == 0) as u64);
+    }
+    let desc = jo! {"installers" => ninst, "emitters" => nemit, "emissions_each" => per, "real_global_cell" => true, "probe_schedule" => probe};
     let nones = evs.iter().filter(|e| matches!(e, Ev::Load { seen: None, .. })).count();
     let mut h = ninst as u64 * 31 + nemit as u64;
     for e in evs.iter().filter(|e| matches!(e, Ev::Set { .. })) {
